@@ -647,6 +647,15 @@ def roundtrip(run, root: Any, exp: List[Dict[str, Any]], feat: Dict[str, Any], c
             buf.seek(0)
             parsed, got_name, got_ver = Element.parse(buf, unicode=flag)
             buf.close()
+        elif len(data) % 3 == 0:
+            # the document sits behind something else in the stream (an earlier document, a container header) and the
+            # caller has read up to its first byte
+            lead = (b'<!-- not this one -->\n', b'\x00' * 300, data[:97])[len(data) % 9 // 3]
+            stream = io.BytesIO(lead + data)
+            stream.seek(len(lead)) if len(data) % 2 else stream.read(len(lead))
+            parsed, got_name, got_ver = Element.parse(stream, unicode=flag)
+            w['stream_offset'] = len(lead)
+            run.count('parses_from_a_stream_offset')
         else:
             parsed, got_name, got_ver = Element.parse(io.BytesIO(data), unicode=flag)
     except Exception as exc:
@@ -1177,4 +1186,4 @@ def replay(run, data) -> None:
 
 
 # (kept at the end of the file so that the text above stays the description the check was first built to)
-RULE += ' ' + "Later additions: binary version 0 (legacy header, format names 'sfm' / 'binary'); a graph with 33 200 table strings (versions 2-4 may refuse it); attributes built through the typed constructors and arrays filled through append / extend / __setitem__ / __delitem__."
+RULE += ' ' + "Later additions: binary version 0 (legacy header, format names 'sfm' / 'binary'); a graph with 33 200 table strings (versions 2-4 may refuse it); attributes built through the typed constructors and arrays filled through append / extend / __setitem__ / __delitem__. A third of the parses read the document from a stream that holds other bytes in front of it and stands at its first byte."
